@@ -18,13 +18,16 @@ def run(ctx):
     add('single.d3.h3.n2', D(3, 3, 2, 1), [2, 0, 1, -1, 0, 0], 240, '', (173,))
     add('upper.d1.h5.n3', D(1, 5, 3, 1), [-2, -1, 2, -1, 0, 0], 200, 'upper working level 0..5', (177, 178))
     add('upper.d2.h3.n2', D(2, 3, 2, 1), [-2, -1, 2, -1, 0, 0], 200, '', (177, 178))
+    from .C09 import DT
+    S.append(dict(name='staged-tsm.d1.h4.s1.t2', wrapper='w_tsm.cpp', defines=DT(1, 4, 1, 2, 1), entry='h_c12_tsm', args=[2, 0 if q else -1, 0, -1, 0, 0], time_limit=200 if q else 1200,
+                  note='target/source executor: all 112 call sequences', expect_reach=(450, 451)))
     if not q:
         add('staged.d1.h5.n3', D(1, 5, 3, 1), [-3, -1, 0, -2, 0, 0], 2400, '', (170,))
         add('staged.d3.h3.n2', D(3, 3, 2, 1), [-2, -1, 0, -1, 0, 0], 3000, '', (170,))
         add('single.d2.h4.n3', D(2, 4, 3, 1), [-3, -1, 1, -2, 0, 0], 2400, '', (173,))
         add('upper.d3.h4.n2', D(3, 4, 2, 1), [-2, -1, 2, -1, 0, 0], 2400, '', (177,))
     ctx.bounds.update(dict(trees='Dim 1-3, heights 3-5, 2-3 particles, block sizes 1..3, both grouping modes', histories='all 112 dependency-ordered partitions of the six flags; each flag alone; upper levels 0..H',
-                           executors='sequential; OpenMP under C03', outside='flag sets that violate the dependency order (not covered by the property)'))
+                           executors='sequential single-tree and target/source executors; the periodic top-tree executor run flag by flag under C10; OpenMP under C03 (full runs)', outside='flag sets that violate the dependency order (not covered by the property)'))
     ctx.assumptions += ASSUME
     e2.run_configs(ctx, S)
     return finish(ctx, TEXT)
